@@ -8,7 +8,8 @@ LEVEL = "exploration"
 BUDGET = {"quick": 1000, "thorough": 240000}
 RULE = ("case = history over a shadow heap graph, executed in a fresh Cello Thread (7 of 8) or in a fresh process' main thread "
         "(collector set up by the main macro): objects of every representation (plain structs with 4 pointer fields of 48 bytes, "
-        "52 bytes and 1 MiB - the latter with pointer fields in its first and its last words -, a type of size 0 as a target, "
+        "52 bytes and 1 MiB - the latter with pointer fields in its first and its last words -, a struct that keeps its pointer "
+        "fields in a malloc'd side block and reports them through its own Mark instance, a type of size 0 as a target, "
         "Ref, Box, Array<Ref>, List<Ref>, Table<Int,Ref>, Table<Ref,Ref> and Tree<Ref,Ref> keys+values, Tree<Int,Ref>, heap "
         "Tuple, a not-started Thread object holding thread-local entries; malloc'd and arena-allocated; obtained from new, "
         "from alloc without a constructor call, or from copy() of a reachable struct / Ref / whole container), holders built "
@@ -28,11 +29,12 @@ ASSUMPTIONS = ["nothing is asserted about unreachable objects (the conservative 
                "chains in generated cases stay below the recursion-depth finding (deep-chain ladder reproduces it separately)",
                "raw objects and objects allocated while the collector is stopped never lie on a path (the collector does not trace through unregistered plain structs; documented as the user's duty)",
                "a Thread object used as a holder is never started (tracing the storage of a running thread is the C13 finding)",
-               "size-0 objects are never copied (copy of a type without Assign and of size 0 raises TypeError)"]
+               "size-0 objects are never copied (copy of a type without Assign and of size 0 raises TypeError); the Mark-implementing struct is neither copied (a bytewise copy would share its side block) nor used unconstructed",
+               "a user Mark instance calls the callback only on pointers to live Cello objects (the callback reads the object's header; the in-tree instances do the same)"]
 
 prepare = gcx.prepare
 
-NODEK = ("node", "nodea", "nodeb", "nodeo")      # instrumented holders with 4 pointer fields (48 bytes, arena, 1 MiB, 52 bytes)
+NODEK = ("node", "nodea", "nodeb", "nodeo", "nodem")      # instrumented holders with 4 pointer fields (48 bytes, arena, 1 MiB, 52 bytes, fields in a side block reported by a Mark instance)
 LEAFK = ("nodez",)                               # instrumented object of size 0: can only be pointed at
 SEQ = ("arr", "lst", "tup")
 MAPI = ("tab", "tre", "thr")                     # keyed by a small integer (thr: thread-local entries of a Thread object)
@@ -197,7 +199,7 @@ def _case(draw):
     nbig = [0]
 
     def node_kind():
-        k = draw(st.sampled_from(["node", "node", "node", "nodea", "nodea", "nodeo", "nodez", "nodeb"]))
+        k = draw(st.sampled_from(["node", "node", "node", "nodea", "nodea", "nodeo", "nodez", "nodeb", "nodem", "nodem"]))
         if k == "nodeb":
             if nbig[0] >= 2:
                 return "node"
@@ -220,8 +222,8 @@ def _case(draw):
             # arena object at an address aimed at a residue class of the registry (last slot, a shared home slot)
             ops.append(["new", h, kind, cls, draw(st.sampled_from([-1, -2, -2, 0, 1, 3]))])
         elif kind in NODEK + LEAFK:
-            # new(...) or alloc(...) without a constructor call
-            ops.append(["alloc" if draw(st.integers(0, 5)) == 0 else "new", h, kind, cls])
+            # new(...) or alloc(...) without a constructor call (the Mark-implementing struct needs its constructor)
+            ops.append(["alloc" if (kind != "nodem" and draw(st.integers(0, 5)) == 0) else "new", h, kind, cls])
         else:
             # the holder is constructed with its element types, or first as a container of scalars that is then
             # assigned / copied from an empty container of the wanted types (its element types change afterwards)
@@ -232,7 +234,7 @@ def _case(draw):
     for _ in range(n):
         o = draw(st.sampled_from(["new", "new", "new", "newc", "newc", "newp", "store", "store", "store", "store", "unstore", "unstore",
                                   "unroot", "del", "collect", "collect", "churn", "bulk", "chain", "box", "cycle", "rootobj", "rootobj",
-                                  "cluster", "cluster", "copy", "copy", "fillnew", "fillnew"]))
+                                  "cluster", "cluster", "cluster", "cluster", "copy", "copy", "fillnew", "fillnew"]))
         R = reachable()
         if o == "new":
             h = fresh()
@@ -241,7 +243,7 @@ def _case(draw):
         elif o == "fillnew" and big[0] + 700 < IDLIM:
             # the registry is filled up to its collection threshold, so the next allocation runs a collection inside
             # alloc(), i.e. while the new object of this kind exists but is not constructed yet
-            kind = draw(st.sampled_from(list(CONT) + ["node", "nodeo", "nodez", "ref"]))
+            kind = draw(st.sampled_from(list(CONT) + ["node", "nodeo", "nodez", "nodem", "ref"]))
             ops.append(["fill", big[0], 600])
             big[0] += 600
             h = fresh()
@@ -250,7 +252,7 @@ def _case(draw):
             ops.append(["check"])
         elif o == "copy" and R:
             # copy() of a reachable object: a plain struct, a Ref or a whole container; the copy shares the targets
-            srcs = [x for x in R if S.kind[x] in NODEK + CONT + ("ref",) and x not in boxed
+            srcs = [x for x in R if S.kind[x] in NODEK + CONT + ("ref",) and x not in boxed and S.kind[x] != "nodem"
                     and (S.kind[x] != "nodeb" or nbig[0] < 2) and len(S.fields[x]) <= 60]
             if srcs:
                 src = draw(st.sampled_from(srcs))
@@ -320,7 +322,7 @@ def _case(draw):
         elif o == "rootobj":
             # a root-registered holder: a plain struct or any of the containers / a Ref (new_root / alloc_root)
             h = fresh()
-            new_obj(h, draw(st.sampled_from(["node", "node", "nodeo", "ref"] + list(CONT))), "root")
+            new_obj(h, draw(st.sampled_from(["node", "node", "nodeo", "nodem", "ref"] + list(CONT))), "root")
         elif o == "box":
             # box -> fresh target; the box is the target's only edge
             t = fresh()
